@@ -251,6 +251,27 @@ pub enum End {
 pub fn decode<T: Serialize + DeserializeOwned + Debug + Unpin>(codec: Codec, bytes: &[u8], cuts: &[usize], pend: bool) -> (Vec<String>, End) {
     let io = ReadIo::new(bytes.to_vec(), cuts, pend);
     let framed = Framed::new(io, LengthDelimitedCodec::new());
+    decode_framed::<T>(codec, framed)
+}
+
+/// A connection that exchanged `hello` frames of its own before it was handed to tarpc
+/// (`serde_transport::new` takes a `Framed` the application built): whatever that `Framed` had
+/// already read beyond the frames the application consumed are protocol messages the peer wrote.
+pub fn decode_after_hello<T: Serialize + DeserializeOwned + Debug + Unpin>(codec: Codec, hellos: usize, bytes: &[u8], cuts: &[usize], pend: bool) -> Result<(Vec<String>, End), String> {
+    let io = ReadIo::new(bytes.to_vec(), cuts, pend);
+    let mut framed = Framed::new(io, LengthDelimitedCodec::new());
+    for k in 0..hellos {
+        let fut = framed.next();
+        futures::pin_mut!(fut);
+        match drive(fut, 100_000) {
+            Some(Some(Ok(b))) if &b[..] == format!("hello{k}").as_bytes() => {}
+            other => return Err(format!("the application's own frame {k} was read as {other:?}")),
+        }
+    }
+    Ok(decode_framed::<T>(codec, framed))
+}
+
+fn decode_framed<T: Serialize + DeserializeOwned + Debug + Unpin>(codec: Codec, framed: Framed<ReadIo, LengthDelimitedCodec>) -> (Vec<String>, End) {
     let mut items = vec![];
     macro_rules! go {
         ($c:expr) => {{
@@ -386,6 +407,17 @@ fn frame_bounds(bytes: &[u8]) -> Vec<usize> {
         let l = u32::from_be_bytes([bytes[p], bytes[p + 1], bytes[p + 2], bytes[p + 3]]) as usize;
         p += 4 + l;
         v.push(p.min(bytes.len()));
+    }
+    v
+}
+
+/// frame boundaries of `bytes` (and the byte after each), shifted by `off`
+fn bounds_after(bytes: &[u8], off: usize) -> Vec<usize> {
+    let mut v = vec![];
+    for b in frame_bounds(bytes) {
+        v.push(off + b);
+        v.push(off + b + 1);
+        v.push(off + b + 4);
     }
     v
 }
@@ -544,6 +576,53 @@ fn check_seq<T: Serialize + DeserializeOwned + Clone + Debug + Unpin>(
             }
             if end != End::Eof {
                 fail(st, "C15-no-eof-after-last", format!("{label} {codec:?}: cut at {plan:?}: after the last message the reader saw {end:?} instead of end-of-stream"));
+            }
+        }
+    }
+    // the reading end is built from a Framed that has already carried 1-2 frames of the application's
+    // own: every way of cutting the stream into <= 3 chunks around that boundary
+    if reference.len() <= 4096 {
+        for hellos in [1usize, 2] {
+            let mut bytes = vec![];
+            for k in 0..hellos {
+                let h = format!("hello{k}");
+                bytes.extend_from_slice(&(h.len() as u32).to_be_bytes());
+                bytes.extend_from_slice(h.as_bytes());
+            }
+            let hl = bytes.len();
+            bytes.extend_from_slice(&reference);
+            let near: Vec<usize> = (1..bytes.len()).filter(|p| *p <= hl + 9 || *p == hl + reference.len() / 2 || bounds_after(&reference, hl).contains(p)).collect();
+            let mut plans: Vec<Vec<usize>> = vec![vec![]];
+            for (i, a) in near.iter().enumerate() {
+                plans.push(vec![*a]);
+                for b in &near[i + 1..] {
+                    if *a <= hl + 9 {
+                        plans.push(vec![*a, *b]);
+                    }
+                }
+            }
+            for plan in &plans {
+                for pend in [false, true] {
+                    if pend && plan.is_empty() {
+                        continue;
+                    }
+                    st.decodes += 1;
+                    st.distinct.insert(hash_of(&(label, codec, "after-hello", hellos, plan, pend)));
+                    match decode_after_hello::<T>(codec, hellos, &bytes, plan, pend) {
+                        Ok((got, end)) => {
+                            if got != want {
+                                fail(
+                                    st,
+                                    "C15-prebuffered-read-differs",
+                                    format!("{label} {codec:?}: transport built from a Framed that had read {hellos} frame(s) of the application's own, stream cut at {plan:?} (pending between chunks: {pend}): read {} items, expected {}", got.len(), want.len()),
+                                );
+                            } else if end != End::Eof {
+                                fail(st, "C15-no-eof-after-last", format!("{label} {codec:?}: after {hellos} hello frame(s), cut at {plan:?}: the reader saw {end:?} instead of end-of-stream"));
+                            }
+                        }
+                        Err(e) => fail(st, "C15-machinery-hello", format!("{label} {codec:?} cut at {plan:?}: {e}")),
+                    }
+                }
             }
         }
     }
@@ -813,6 +892,599 @@ fn check_channels(st: &mut CStats, depth: usize) {
     }
 }
 
+
+// two-way histories over both ends of an in-memory channel, with wake obligations
+#[derive(Clone, Copy, Debug, PartialEq)]
+enum DOp {
+    Send(usize),
+    Recv(usize),
+    Drop(usize),
+}
+
+/// Both ends send and receive; end `e` is polled with its own flag waker. Beyond intact, in-order
+/// delivery and end-of-stream after a drop, a `Pending` answer is an obligation: a reader told
+/// `Pending` must be woken when the other end sends or is dropped, a writer told `Pending` by
+/// `poll_ready` must be woken when the other end takes an item.
+fn chan_history2<A, B>(mk: &dyn Fn() -> (A, B), hist: &[DOp], n_items: u32) -> Result<(), String>
+where
+    A: Sink<u32> + Stream<Item = Result<u32, tarpc::transport::channel::ChannelError>> + Unpin,
+    B: Sink<u32> + Stream<Item = Result<u32, tarpc::transport::channel::ChannelError>> + Unpin,
+    <A as Sink<u32>>::Error: Debug,
+    <B as Sink<u32>>::Error: Debug,
+{
+    use crate::mock::Flag;
+    enum End<A, B> {
+        A(A),
+        B(B),
+    }
+    impl<A, B> End<A, B>
+    where
+        A: Sink<u32> + Stream<Item = Result<u32, tarpc::transport::channel::ChannelError>> + Unpin,
+        B: Sink<u32> + Stream<Item = Result<u32, tarpc::transport::channel::ChannelError>> + Unpin,
+        <A as Sink<u32>>::Error: Debug,
+        <B as Sink<u32>>::Error: Debug,
+    {
+        fn ready(&mut self, cx: &mut Context<'_>) -> Poll<Result<(), String>> {
+            match self {
+                End::A(x) => Pin::new(x).poll_ready(cx).map_err(|e| format!("{e:?}")),
+                End::B(x) => Pin::new(x).poll_ready(cx).map_err(|e| format!("{e:?}")),
+            }
+        }
+        fn send(&mut self, v: u32) -> Result<(), String> {
+            match self {
+                End::A(x) => Pin::new(x).start_send(v).map_err(|e| format!("{e:?}")),
+                End::B(x) => Pin::new(x).start_send(v).map_err(|e| format!("{e:?}")),
+            }
+        }
+        fn flush(&mut self, cx: &mut Context<'_>) -> Poll<Result<(), String>> {
+            match self {
+                End::A(x) => Pin::new(x).poll_flush(cx).map_err(|e| format!("{e:?}")),
+                End::B(x) => Pin::new(x).poll_flush(cx).map_err(|e| format!("{e:?}")),
+            }
+        }
+        fn next(&mut self, cx: &mut Context<'_>) -> Poll<Option<Result<u32, String>>> {
+            match self {
+                End::A(x) => Pin::new(x).poll_next(cx).map(|o| o.map(|r| r.map_err(|e| format!("{e:?}")))),
+                End::B(x) => Pin::new(x).poll_next(cx).map(|o| o.map(|r| r.map_err(|e| format!("{e:?}")))),
+            }
+        }
+    }
+    let (a, b) = mk();
+    let mut ends: [Option<End<A, B>>; 2] = [Some(End::A(a)), Some(End::B(b))];
+    let flags = [Flag::new(false), Flag::new(false)];
+    let wakers = [std::task::Waker::from(flags[0].clone()), std::task::Waker::from(flags[1].clone())];
+    let mut sent = [0u32; 2]; // items sent BY end e
+    let mut got: [Vec<u32>; 2] = [vec![], vec![]]; // items received BY end e
+    let mut ended = [false; 2];
+    let mut recv_pending = [false; 2];
+    let mut send_pending = [false; 2];
+    for (k, op) in hist.iter().enumerate() {
+        let at = |m: String| format!("step {k} {op:?}: {m}");
+        match *op {
+            DOp::Send(e) => {
+                let o = 1 - e;
+                let Some(end) = ends[e].as_mut() else { continue };
+                if sent[e] >= n_items {
+                    continue;
+                }
+                flags[e].clear();
+                let mut cx = Context::from_waker(&wakers[e]);
+                match end.ready(&mut cx) {
+                    Poll::Ready(Ok(())) => {
+                        send_pending[e] = false;
+                        match end.send(sent[e]) {
+                            Ok(()) => {}
+                            Err(m) if ends[o].is_none() => {
+                                let _ = m;
+                                continue;
+                            }
+                            Err(m) => return Err(at(format!("start_send after ready failed with the other end alive: {m}"))),
+                        }
+                        sent[e] += 1;
+                        let _ = end.flush(&mut cx);
+                        if recv_pending[o] && ends[o].is_some() {
+                            if !flags[o].is_set() {
+                                return Err(at(format!("end {o} was told Pending by poll_next and is not woken by a send")));
+                            }
+                            recv_pending[o] = false;
+                        }
+                    }
+                    Poll::Ready(Err(m)) => {
+                        if ends[o].is_some() {
+                            return Err(at(format!("poll_ready failed with the other end alive: {m}")));
+                        }
+                    }
+                    Poll::Pending => {
+                        if ends[o].is_none() {
+                            return Err(at("poll_ready pending although the other end is gone".into()));
+                        }
+                        send_pending[e] = true;
+                    }
+                }
+            }
+            DOp::Recv(e) => {
+                let o = 1 - e;
+                let Some(end) = ends[e].as_mut() else { continue };
+                flags[e].clear();
+                let mut cx = Context::from_waker(&wakers[e]);
+                match end.next(&mut cx) {
+                    Poll::Ready(Some(Ok(v))) => {
+                        if ended[e] {
+                            return Err(at("item after end-of-stream".into()));
+                        }
+                        recv_pending[e] = false;
+                        got[e].push(v);
+                        if send_pending[o] && ends[o].is_some() {
+                            if !flags[o].is_set() {
+                                return Err(at(format!("end {o} was told Pending by poll_ready and is not woken when room returns")));
+                            }
+                            send_pending[o] = false;
+                        }
+                    }
+                    Poll::Ready(Some(Err(m))) => return Err(at(format!("receive error: {m}"))),
+                    Poll::Ready(None) => {
+                        if ends[o].is_some() {
+                            return Err(at("end-of-stream while the other end is alive".into()));
+                        }
+                        if got[e].len() as u32 != sent[o] {
+                            return Err(at(format!("end-of-stream after {} of {} items", got[e].len(), sent[o])));
+                        }
+                        ended[e] = true;
+                    }
+                    Poll::Pending => {
+                        if got[e].len() as u32 != sent[o] {
+                            return Err(at(format!("reader pending with {} of {} items read", got[e].len(), sent[o])));
+                        }
+                        if ends[o].is_none() {
+                            return Err(at("reader pending after the other end was dropped and everything was read".into()));
+                        }
+                        recv_pending[e] = true;
+                    }
+                }
+            }
+            DOp::Drop(e) => {
+                let o = 1 - e;
+                if ends[e].take().is_none() {
+                    continue;
+                }
+                if recv_pending[o] && ends[o].is_some() {
+                    if !flags[o].is_set() {
+                        return Err(at(format!("end {o} was told Pending by poll_next and is not woken when the other end is dropped")));
+                    }
+                    recv_pending[o] = false;
+                }
+                if send_pending[o] && ends[o].is_some() && !flags[o].is_set() {
+                    return Err(at(format!("end {o} was told Pending by poll_ready and is not woken when the other end is dropped")));
+                }
+            }
+        }
+        for e in 0..2 {
+            let want: Vec<u32> = (0..got[e].len() as u32).collect();
+            if got[e] != want {
+                return Err(at(format!("end {e} read {:?}, the other end sent 0..{}", got[e], sent[1 - e])));
+            }
+        }
+    }
+    // drain: drop end 0 (if alive), end 1 reads the rest and then end-of-stream; and the mirror image
+    for (dropped, reader) in [(0usize, 1usize), (1, 0)] {
+        if ends[reader].is_none() {
+            continue;
+        }
+        ends[dropped] = None;
+        let end = ends[reader].as_mut().unwrap();
+        let mut cx = Context::from_waker(&wakers[reader]);
+        loop {
+            match end.next(&mut cx) {
+                Poll::Ready(Some(Ok(v))) => got[reader].push(v),
+                Poll::Ready(Some(Err(m))) => return Err(format!("drain: receive error: {m}")),
+                Poll::Ready(None) => break,
+                Poll::Pending => return Err(format!("drain: end {reader} pending forever after the other end was dropped")),
+            }
+        }
+        let want: Vec<u32> = (0..sent[dropped]).collect();
+        if got[reader] != want {
+            return Err(format!("drain: end {reader} read {:?}, the other end sent 0..{}", got[reader], sent[dropped]));
+        }
+        break;
+    }
+    Ok(())
+}
+
+fn check_channels2(st: &mut CStats, depth: usize) {
+    use tarpc::transport::channel;
+    let ops = [DOp::Send(0), DOp::Recv(1), DOp::Send(1), DOp::Recv(0), DOp::Drop(0), DOp::Drop(1)];
+    let mut frontier: Vec<Vec<DOp>> = vec![vec![]];
+    let mut hists: Vec<Vec<DOp>> = vec![];
+    for _ in 0..depth {
+        let mut next = vec![];
+        for h in &frontier {
+            for o in ops {
+                if matches!(o, DOp::Drop(_)) && h.iter().any(|x| matches!(x, DOp::Drop(_))) {
+                    continue;
+                }
+                let mut c = h.clone();
+                c.push(o);
+                next.push(c);
+            }
+        }
+        hists.extend(next.iter().cloned());
+        frontier = next;
+    }
+    for h in &hists {
+        for (name, cap) in [("unbounded", None), ("bounded(0)", Some(0usize)), ("bounded(1)", Some(1)), ("bounded(2)", Some(2))] {
+            st.chan_histories += 1;
+            st.distinct.insert(hash_of(&(name, "two-way", format!("{h:?}"))));
+            let r = match cap {
+                None => chan_history2(&|| channel::unbounded::<u32, u32>(), h, 4),
+                Some(c) => chan_history2(&move || channel::bounded::<u32, u32>(c), h, 4),
+            };
+            if let Err(e) = r {
+                fail(st, &format!("C15-channel-{name}"), format!("two-way {name} {h:?}: {e}"));
+            }
+        }
+    }
+}
+
+
+// ---------------------------------------------------------------------------------------------
+// The same two-way histories as a part of C02: the shipped in-memory transports are where "capacity
+// returning", "reply arrival" and "peer close" become wake-ups when tarpc runs over them.
+
+#[derive(Clone, Debug, serde::Serialize, serde::Deserialize)]
+pub struct ChanCfg {
+    /// None = unbounded
+    pub cap: Option<usize>,
+    /// 0 = Send(0), 1 = Recv(1), 2 = Send(1), 3 = Recv(0), 4 = Drop(0), 5 = Drop(1)
+    pub hist: Vec<u8>,
+}
+
+pub struct ChanHarness {
+    pub cfgs: Vec<ChanCfg>,
+}
+
+pub fn chan_configs(depth: usize) -> Vec<ChanCfg> {
+    let mut frontier: Vec<Vec<u8>> = vec![vec![]];
+    let mut hists: Vec<Vec<u8>> = vec![];
+    for _ in 0..depth {
+        let mut next = vec![];
+        for h in &frontier {
+            for o in 0u8..6 {
+                if o >= 4 && h.iter().any(|x| *x >= 4) {
+                    continue;
+                }
+                let mut c = h.clone();
+                c.push(o);
+                next.push(c);
+            }
+        }
+        hists.extend(next.iter().cloned());
+        frontier = next;
+    }
+    let mut v = vec![];
+    for cap in [None, Some(0usize), Some(1), Some(2)] {
+        for h in &hists {
+            v.push(ChanCfg { cap, hist: h.clone() });
+        }
+    }
+    v
+}
+
+pub fn run_chan_cfg(cfg: &ChanCfg, render: bool) -> crate::explore::RunOut {
+    use tarpc::transport::channel;
+    let hist: Vec<DOp> = cfg
+        .hist
+        .iter()
+        .map(|o| match o {
+            0 => DOp::Send(0),
+            1 => DOp::Recv(1),
+            2 => DOp::Send(1),
+            3 => DOp::Recv(0),
+            4 => DOp::Drop(0),
+            _ => DOp::Drop(1),
+        })
+        .collect();
+    let r = std::panic::catch_unwind(std::panic::AssertUnwindSafe(|| match cfg.cap {
+        None => chan_history2(&|| channel::unbounded::<u32, u32>(), &hist, 4),
+        Some(c) => chan_history2(&move || channel::bounded::<u32, u32>(c), &hist, 4),
+    }));
+    let mut violations = vec![];
+    match r {
+        Ok(Ok(())) => {}
+        // delivery itself is C15's business; C02 judges the wake-ups and the waits
+        Ok(Err(m)) if m.contains("not woken") || m.contains("pending") => violations.push(crate::explore::Violation {
+            signature: "C02-channel-wake".into(),
+            message: format!("in-memory channel {:?} {hist:?}: {m}", cfg.cap),
+        }),
+        Ok(Err(_)) => {}
+        Err(_) => violations.push(crate::explore::Violation {
+            signature: "C02-channel-panic".into(),
+            message: format!("in-memory channel {:?} {hist:?}: panic", cfg.cap),
+        }),
+    }
+    let th = hash_of(&(format!("{:?}", cfg.cap), cfg.hist.clone()));
+    crate::explore::RunOut {
+        violations,
+        nontrivial: cfg.hist.len() > 1,
+        trace_hash: th,
+        outcome_hash: hash_of(&(cfg.hist.iter().filter(|o| **o == 1 || **o == 3).count(), cfg.hist.iter().any(|o| *o >= 4))),
+        steps: cfg.hist.len() as u32,
+        state_hashes: vec![th],
+        render: if render { Some(format!("in-memory channel cap {:?}: {hist:?}\n", cfg.cap)) } else { None },
+        machinery_error: None,
+        extra_execs: 0,
+    }
+}
+
+impl crate::explore::Harness for ChanHarness {
+    fn name(&self) -> String {
+        "channel/C02".into()
+    }
+    fn n_configs(&self) -> usize {
+        self.cfgs.len()
+    }
+    fn config_json(&self, idx: usize) -> serde_json::Value {
+        json!(self.cfgs[idx])
+    }
+    fn run(&self, idx: usize, _prefix: &[u16], render: bool) -> (crate::explore::RunOut, Vec<crate::explore::Point>) {
+        (run_chan_cfg(&self.cfgs[idx], render), vec![])
+    }
+}
+
+
+// ---------------------------------------------------------------------------------------------
+// C09 below the Sink/Stream seam: the shipped serde transport over a byte stream that fails. Every
+// kind of io::Error the medium can report, at every position of a short exchange, must come out of
+// the transport as an error - and so end the client's dispatch with an error naming
+// the read, fail the outstanding call, and be reported by the server channel's stream.
+
+pub struct FaultIo {
+    data: Vec<u8>,
+    pos: usize,
+    /// reads fail once `pos` has reached this many bytes
+    pub fail_read_at: Option<usize>,
+    pub fail_write: bool,
+    pub fail_flush: bool,
+    pub kind: io::ErrorKind,
+    pub written: Rc<RefCell<Vec<u8>>>,
+}
+impl AsyncRead for FaultIo {
+    fn poll_read(mut self: Pin<&mut Self>, _: &mut Context<'_>, buf: &mut ReadBuf<'_>) -> Poll<io::Result<()>> {
+        if let Some(at) = self.fail_read_at {
+            if self.pos >= at {
+                return Poll::Ready(Err(io::Error::new(self.kind, "medium failed")));
+            }
+        }
+        let limit = self.fail_read_at.unwrap_or(usize::MAX).min(self.data.len());
+        if self.pos >= limit {
+            return Poll::Pending; // nothing more for now (the harness never waits on it)
+        }
+        let n = (limit - self.pos).min(buf.remaining());
+        let p = self.pos;
+        buf.put_slice(&self.data[p..p + n]);
+        self.pos += n;
+        Poll::Ready(Ok(()))
+    }
+}
+impl AsyncWrite for FaultIo {
+    fn poll_write(self: Pin<&mut Self>, _: &mut Context<'_>, buf: &[u8]) -> Poll<io::Result<usize>> {
+        if self.fail_write {
+            return Poll::Ready(Err(io::Error::new(self.kind, "medium failed")));
+        }
+        self.written.borrow_mut().extend_from_slice(buf);
+        Poll::Ready(Ok(buf.len()))
+    }
+    fn poll_flush(self: Pin<&mut Self>, _: &mut Context<'_>) -> Poll<io::Result<()>> {
+        if self.fail_flush {
+            return Poll::Ready(Err(io::Error::new(self.kind, "medium failed")));
+        }
+        Poll::Ready(Ok(()))
+    }
+    fn poll_shutdown(self: Pin<&mut Self>, _: &mut Context<'_>) -> Poll<io::Result<()>> {
+        Poll::Ready(Ok(()))
+    }
+}
+
+#[derive(Clone, Debug, serde::Serialize, serde::Deserialize)]
+pub struct IoCase {
+    pub json: bool,
+    /// 0 = transport alone (reader), 1 = client dispatch with one call outstanding, 2 = server channel
+    pub level: u8,
+    /// index into KINDS
+    pub kind: usize,
+    /// 0 = read fails at once, 1 = after one whole inbound message, 2 = inside the second message,
+    /// 3 = writes fail, 4 = flushes fail
+    pub at: u8,
+}
+
+pub fn io_cases() -> Vec<IoCase> {
+    let mut v = vec![];
+    for json in [true, false] {
+        for level in 0..3u8 {
+            for kind in 0..KINDS.len() {
+                for at in 0..5u8 {
+                    if level == 0 && at >= 3 {
+                        continue;
+                    }
+                    v.push(IoCase { json, level, kind, at });
+                }
+            }
+        }
+    }
+    v
+}
+
+/// Ok(description of what was observed) or Err((signature, message))
+/// like `encode`, for message types that cannot be cloned
+fn encode_owned<T: Serialize + DeserializeOwned + Unpin>(codec: Codec, items: Vec<T>) -> Result<Vec<u8>, String> {
+    let io = WriteIo::new(0, false);
+    let out = io.out.clone();
+    let framed = Framed::new(io, LengthDelimitedCodec::new());
+    macro_rules! go {
+        ($c:expr) => {{
+            let mut t = tarpc::serde_transport::new::<_, T, T, _>(framed, $c);
+            for it in items {
+                let fut = t.send(it);
+                futures::pin_mut!(fut);
+                match drive(fut, 100_000) {
+                    Some(Ok(())) => {}
+                    Some(Err(e)) => return Err(format!("send error: {e}")),
+                    None => return Err("send did not complete".into()),
+                }
+            }
+        }};
+    }
+    match codec {
+        Codec::Json => go!(Json::<T, T>::default()),
+        Codec::Bincode => go!(Bincode::<T, T>::default()),
+    }
+    let v = out.borrow().clone();
+    Ok(v)
+}
+
+pub fn run_io_case(c: &IoCase) -> Result<String, (String, String)> {
+    use std::future::Future;
+    use tarpc::{client, server::{BaseChannel, Channel}};
+    let kind = KINDS[c.kind];
+    let codec = if c.json { Codec::Json } else { Codec::Bincode };
+    // what the peer has sent: two well-formed messages of the right direction
+    let inbound: Vec<u8> = if c.level == 2 {
+        let mut ctx = tarpc::context::current();
+        ctx.deadline = std::time::Instant::now() + Duration::from_secs(3600);
+        let m = |id| ClientMessage::Request(tarpc::Request { context: ctx, id, message: "x".to_string() });
+        encode_owned(codec, vec![m(0), m(1)]).map_err(|e| ("C09-machinery".to_string(), e))?
+    } else {
+        let m = |id| Response { request_id: id, message: Ok("y".to_string()) };
+        // answers to ids the client has not used (the transport level does not care; the dispatch discards them)
+        encode_owned(codec, vec![m(1000), m(1001)]).map_err(|e| ("C09-machinery".to_string(), e))?
+    };
+    let first = frame_bounds(&inbound)[0];
+    let io = FaultIo {
+        data: inbound.clone(),
+        pos: 0,
+        fail_read_at: match c.at {
+            0 => Some(0),
+            1 => Some(first),
+            2 => Some(first + 5),
+            _ => None,
+        },
+        fail_write: c.at == 3,
+        fail_flush: c.at == 4,
+        kind,
+        written: Rc::new(RefCell::new(vec![])),
+    };
+    let framed = Framed::new(io, LengthDelimitedCodec::new());
+    let label = format!("{codec:?} medium failing with {kind:?} ({})", ["first read", "read after one whole message", "read inside the second message", "every write", "every flush"][c.at as usize]);
+    let waker = futures::task::noop_waker();
+    let mut cx = Context::from_waker(&waker);
+    let rt = tokio::runtime::Builder::new_current_thread().enable_time().start_paused(true).build().unwrap();
+    let _g = rt.enter();
+    macro_rules! with_transport {
+        ($t:ident, $item:ty, $sink:ty, $body:block) => {
+            match codec {
+                Codec::Json => {
+                    let mut $t = tarpc::serde_transport::new::<_, $item, $sink, _>(framed, Json::<$item, $sink>::default());
+                    $body
+                }
+                Codec::Bincode => {
+                    let mut $t = tarpc::serde_transport::new::<_, $item, $sink, _>(framed, Bincode::<$item, $sink>::default());
+                    $body
+                }
+            }
+        };
+    }
+    match c.level {
+        0 => with_transport!(t, Response<String>, ClientMessage<String>, {
+            let mut got = 0;
+            for _ in 0..8 {
+                match Pin::new(&mut t).poll_next(&mut cx) {
+                    Poll::Ready(Some(Ok(_))) => got += 1,
+                    // (the transport wraps the medium's error in one of kind Other: the property asks
+                    // for the failure to be reported, not for its kind to survive)
+                    Poll::Ready(Some(Err(_))) => return Ok(format!("{label}: {got} messages, then the error")),
+                    Poll::Ready(None) => return Err(("C09-io-error-swallowed".into(), format!("{label}: the transport's stream ended cleanly after {got} messages, the failure was not reported"))),
+                    Poll::Pending => return Err(("C09-io-error-swallowed".into(), format!("{label}: the transport's stream is pending after {got} messages, the failure was not reported"))),
+                }
+            }
+            Err(("C09-machinery".into(), format!("{label}: more messages than were sent")))
+        }),
+        1 => with_transport!(t, Response<String>, ClientMessage<String>, {
+            let _ = &mut t;
+            let nc = client::new::<String, String, _>(client::Config::default(), t);
+            let ch = nc.client;
+            let mut dispatch = Box::pin(nc.dispatch);
+            let mut ctx = tarpc::context::current();
+            ctx.deadline = std::time::Instant::now() + Duration::from_secs(3600);
+            let mut call = Box::pin(async move { ch.call(ctx, "q".to_string()).await });
+            let _ = call.as_mut().poll(&mut cx);
+            let mut ended = None;
+            for _ in 0..16 {
+                if let Poll::Ready(r) = dispatch.as_mut().poll(&mut cx) {
+                    ended = Some(r);
+                    break;
+                }
+            }
+            match ended {
+                None => Err(("C09-io-error-swallowed".into(), format!("{label}: the client's dispatch keeps running over the failed medium"))),
+                Some(Ok(())) => Err(("C09-io-error-swallowed".into(), format!("{label}: the client's dispatch ended with Ok"))),
+                Some(Err(e)) => {
+                    let named = format!("{e:?}");
+                    let want_read = c.at <= 2;
+                    if want_read != named.starts_with("Read") {
+                        return Err(("C09-wrong-activity".into(), format!("{label}: the dispatch ended with {named}")));
+                    }
+                    drop(dispatch);
+                    match call.as_mut().poll(&mut cx) {
+                        Poll::Ready(Err(_)) => Ok(format!("{label}: dispatch ended with {}, the call failed", named.split('(').next().unwrap_or(""))),
+                        Poll::Ready(Ok(v)) => Err(("C09-outcome-after-fault".into(), format!("{label}: the call succeeded with {v:?}"))),
+                        Poll::Pending => Err(("C09-hang".into(), format!("{label}: the outstanding call is still pending after the dispatch ended and was dropped"))),
+                    }
+                }
+            }
+        }),
+        _ => with_transport!(t, ClientMessage<String>, Response<String>, {
+            let _ = &mut t;
+            let mut reqs = Box::pin(BaseChannel::with_defaults(t).requests());
+            let mut yielded = vec![];
+            for _ in 0..8 {
+                match reqs.as_mut().poll_next(&mut cx) {
+                    Poll::Ready(Some(Ok(r))) => yielded.push(r),
+                    Poll::Ready(Some(Err(e))) => {
+                        let named = format!("{e:?}");
+                        return if c.at <= 2 && !named.starts_with("Read") {
+                            Err(("C09-wrong-activity".into(), format!("{label}: the server channel reported {named}")))
+                        } else {
+                            Ok(format!("{label}: {} requests, then {}", yielded.len(), named.split('(').next().unwrap_or("")))
+                        };
+                    }
+                    Poll::Ready(None) => {
+                        return if c.at <= 2 {
+                            Err(("C09-io-error-swallowed".into(), format!("{label}: the server channel's stream ended cleanly after {} requests", yielded.len())))
+                        } else {
+                            Ok(format!("{label}: ended"))
+                        }
+                    }
+                    Poll::Pending => {
+                        // a write-side failure shows only once something is written: answer the requests
+                        if c.at >= 3 && !yielded.is_empty() {
+                            let r = yielded.remove(0);
+                            let f = r.execute(tarpc::server::serve(|_, s: String| async move { Ok(s) }));
+                            let mut f = Box::pin(f);
+                            let _ = f.as_mut().poll(&mut cx);
+                            continue;
+                        }
+                        return if c.at <= 2 {
+                            Err(("C09-io-error-swallowed".into(), format!("{label}: the server channel is pending after {} requests, the failure was not reported", yielded.len())))
+                        } else {
+                            Err(("C09-io-error-swallowed".into(), format!("{label}: the server channel wrote its responses and is pending, the failure was not reported")))
+                        };
+                    }
+                }
+            }
+            Err(("C09-machinery".into(), format!("{label}: more requests than were sent")))
+        }),
+    }
+}
+
 // ---------------------------------------------------------------------------------------------
 
 pub static FOUR_CHUNKS: std::sync::atomic::AtomicBool = std::sync::atomic::AtomicBool::new(false);
@@ -895,7 +1567,10 @@ pub fn run_c15(tier: Tier) -> i32 {
                                 check_raw_kinds(&mut st);
                             }
                             Job::Defaults => check_defaults(&mut st),
-                            Job::Channels => check_channels(&mut st, chan_depth),
+                            Job::Channels => {
+                                check_channels(&mut st, chan_depth);
+                                check_channels2(&mut st, chan_depth.saturating_sub(1).min(8));
+                            }
                         }
                     }
                 }));
